@@ -256,12 +256,18 @@ class TZAwareMicros(
         register_type_strategy(cls, tz_aware_datetimes())
 
 
+_max_utc = datetime.datetime.max.replace(tzinfo=datetime.UTC)
+
+
 def is_tz_aware_with_millisecond_precision(dt: datetime.datetime) -> bool:
     return (
         dt.tzinfo is not None
         and dt.tzinfo.utcoffset(dt) is not None
         and dt.microsecond % 1000 == 0
         and dt.timestamp() >= 0
+        # Instants beyond the last one representable in UTC can be written, but
+        # not read back.
+        and dt <= _max_utc
     )
 
 
